@@ -207,6 +207,7 @@ CFG = {
             "must be REJECTED (decided on the bytes), except entries of 2 below the newest revision, which are shadowed: controls that must load exactly; 589 cases per seed (thorough: three rounds); corpus/C04/retarget_across_revisions.case. "
             "SELF ROWS in histories (41 more `reth` cases per seed): the row the cross-reference stream object 100 + i of revision i has for itself, aimed at objects of every revision (older, same, NEWER), into an object, at an endobj, at the header - known class xrefstm-self-entry-unchecked (see C03) for exactly that shape and exactly the exact load; when revision i is a classic table the added entry is an ordinary mismatch and must be rejected; "
             "corpus/C04/known_xrefstm-self-entry-unchecked.case (the two witness histories of Props/C04SelfRow.lean as `selfrow` lines). "
+            "TIGHTLY PACKED OBJECT STREAMS in histories (`packh`, after the missed seed C03_9, see C03 `pack`): 96 histories per seed - base revision with the packed container 20 (members 11-17), an update (cross-reference stream or hybrid) redefining plain object 2 and adding a second packed container 40 (members 31-37) of another layout variant, optionally a third plain revision; all 14 members must be defined; corpus/C04/objstm_members_back_to_back.case. "
             "Every 3rd history also with one "
             "corruption (correspondence and no panic). Oracle = DocSpec.resolve over the revisions on the chain. Classifiers decided on the case: "
             "'generation-changed' = some number is mentioned with two generations; 'objstm-member-touched-later' = a member number is mentioned by a later "
